@@ -108,6 +108,7 @@ func (s C07) Events(env world.Env, mm mc.Model) []string {
 	for _, u := range c07Users {
 		evs = append(evs, "Buy:"+u+":1", "Buy:"+u+":2")
 	}
+	evs = append(evs, "BuyFor:U2:U1:2", "BuyFor:U1:U2:1") // one account pays for the other's plan
 	if m.Posts < 4 {
 		for _, u := range c07Users {
 			for _, s := range []string{"400", "600"} {
@@ -211,6 +212,11 @@ func (C07) Apply(env world.Env, mm mc.Model, ev string) mc.Step {
 		}
 		st.Outcome = "block"
 		via = "block"
+	case "BuyFor":
+		gbs, _ := strconv.ParseInt(p[3], 10, 64)
+		if env.Deliver(storagetypes.NewMsgBuyStorage(w.A(p[1]).Bech, w.A(p[2]).Bech, 30, gbs*1_000_000_000, "ujkl")).OK() {
+			st.Outcome = "ok"
+		}
 	case "Buy":
 		gbs, _ := strconv.ParseInt(p[2], 10, 64)
 		a := w.A(p[1]).Bech
